@@ -48,6 +48,11 @@ func (g *c08Gen) argValue(vars []string) *mj.Expr {
 	if g.n(0, 3, "argnum") == 0 {
 		return mj.Num(float64(g.n(0, 9, "argnumv")))
 	}
+	if g.n(0, 7, "argnil") == 0 {
+		// an argument that is written out binds its parameter, also when it evaluates to nothing
+		g.labels["argument-evaluating-to-nil"] = true
+		return mj.Nil()
+	}
 	if g.n(0, 5, "argdot") == 0 {
 		g.labels["argument-or-default-reads-dot"] = true
 		return mj.Dot() // the context of the yield / definition site, not the one handed to the block
@@ -80,7 +85,11 @@ func (g *c08Gen) yield(file string, minIdx int, vars []string, depth int, inUses
 	}
 	if g.n(0, 4, "extraArg") == 0 {
 		g.labels["argument-the-block-does-not-declare"] = true
-		n.Params = append(n.Params, mj.Param{Name: g.id("extra"), E: g.argValue(vars)})
+		name := g.id("extra")
+		if g.n(0, 1, "extraArgProbed") == 0 {
+			name = "xarg" // block bodies ask whether this name is visible
+		}
+		n.Params = append(n.Params, mj.Param{Name: name, E: mj.Str(g.id("xargv"))})
 	}
 	if len(perm) >= 2 && len(n.Params) >= 2 && n.Params[0].Name != sig.params[0] {
 		g.labels["shuffled-arguments"] = true
@@ -163,6 +172,13 @@ func (g *c08Gen) def(file string, idx int, depth int) *mj.Node {
 	}
 	if g.n(0, 1, "bdot") == 0 {
 		body = append(body, mj.Text("(.="), mj.Print(mj.Dot()), mj.Text(")"))
+	}
+	if g.n(0, 1, "xargProbe") == 0 {
+		// arguments the block does not declare are bound all the same, whatever the block does declare
+		body = append(body, mj.Text("(xarg?"), mj.Print(mj.Call("isset", mj.Var("xarg"))), mj.Text(")"))
+		if len(sig.params) == 0 {
+			g.labels["parameterless-block-looks-for-an-undeclared-argument"] = true
+		}
 	}
 	body = append(body, mj.Let("blocal", mj.Str("local-of-"+sig.name)))
 	if depth < 3 && g.n(0, 1, "byield") == 0 {
